@@ -347,7 +347,9 @@ func errOr(err error, f func() string) string {
 	return "ok:" + f()
 }
 
-func digestShares(shs []share.Share) string { return "#" + itoa(len(shs)) + ":" + digestList(rawShares(shs)) }
+func digestShares(shs []share.Share) string {
+	return "#" + itoa(len(shs)) + ":" + digestList(rawShares(shs))
+}
 
 func digestBytesList(l [][]byte) string { return "#" + itoa(len(l)) + ":" + digestList(l) }
 
